@@ -18,8 +18,8 @@ R("09b85350de", "config", "Prefix4::new asserts prefixlen <= 32; every caller pa
 R("e89c8b29b6", "internal", "the arm is entered only when network() has the ::ffff:0:0/96 pattern, and network() masks the address with the "
   "prefix length, so the pattern can only survive when prefixlen >= 96", requires=("C08.R6", "S2"))
 R("b7c00e393d", "config", "network + offset with offset < 2^(32-prefixlen): stays inside the configured subnet", props=C05)
-R("1a5ec36410", "config", "dest[0] of a forward route: the server list comes from the configuration", props=C05)
-R("846664c7f6", "config", "RA option length octet: length of a configured option value", props=C05)
+R("23d3481b86", "config", "dest[0] of a forward route: the server list comes from the configuration", props=C05)
+R("886401a65b", "config", "RA option length octet: length of a configured option value", props=C05)
 R("1ff92d722b", "internal", "RA DNSSL length octet: names are appended only while the list stays within 254 * 8 octets, so after padding len / 8 <= 254")
 R("88f12b364c", "config", "IPv4 total length: 20 + size of the DHCP reply, whose size is fixed by the configured options and the fixed "
   "BOOTP header, not by the request", props=C05)
@@ -32,7 +32,7 @@ for h, n, why in (
     ("884afb67b5", 1, "interface index i32 -> u32: kernel indices are positive"),
     ("39fa54a5f7", 1, "interface index conversion for the raw socket: kernel value"),
     ("0dfdb9faa8", 1, "source address of a datagram received on an AF_INET socket is a sockaddr_in"),
-    ("474ccd7c7f", 1, "source address of a datagram received on an AF_INET socket is a sockaddr_in"),
+    ("68e9f5214c", 1, "source address of a datagram received on an AF_INET socket is a sockaddr_in"),
     ("90134077b2", 1, "interface index conversion: kernel value"),
     ("b73d7cef78", 1, "system clock earlier than 1970"),
     ("20de02d239", 1, "system clock earlier than 1970"),
@@ -49,12 +49,12 @@ for h, n, why in (
     ("80b1e4deb0", 2, "source address of a received datagram is always reported by recvmsg"),
     ("d39023a62f", 1, "local address of an accepted TCP connection"),
     ("6bd8eb597a", 1, "local address of an accepted TCP connection"),
-    ("1a653aa623", 1, "local address of a connected UDP socket"),
+    ("f2d158d343", 1, "local address of a connected UDP socket"),
     ("16674eaf0e", 1, "difference of two Instant::now() readings of the monotonic clock, later minus earlier"),
     ("bcfd80baec", 1, "Instant + constant 120 s"),
     ("f7dbcef064", 1, "Instant + constant 120 s"),
-    ("eae0d9ce64", 1, "interface table from netlink: the interface a solicitation arrived on is known"),
-    ("a1c1ac9afe", 1, "an IPv6-enabled interface always has a link-local address (netlink)"),
+    ("06c759d009", 1, "interface table from netlink: the interface a solicitation arrived on is known"),
+    ("602cf923c3", 1, "an IPv6-enabled interface always has a link-local address (netlink)"),
     ("c2953f5b87", 1, "interface index conversion: kernel value"),
     ("bb83030d3d", 1, "sockaddr handed out by the kernel has a valid family and length"),
 ):
@@ -65,10 +65,10 @@ R("8248e5f66d", "internal", "Instant + lifetime, lifetime <= u32::MAX seconds (f
 R("a626129d44", "internal", "Instant + lifetime, lifetime <= u32::MAX seconds", requires=("C06.R3",))
 R("72e0fc64e3", "internal", "(birth + lifetime) - now on the edge where expiry() >= now", requires=("C06.R2",))
 R("2e61caff4b", "internal", "now - birth: birth is an earlier reading of the same monotonic clock")
-R("53d5e6e23c", "internal", "Duration * small constant: dur is a measured round trip below the timeout (<= MAX_DNS_TIMEOUT)")
-R("c24e39ee32", "internal", "Duration * small constant: the shared timeout is clamped to [MIN_DNS_TIMEOUT, MAX_DNS_TIMEOUT] on every store")
-R("e94a834b8f", "internal", "sum of the two bounded products above")
-R("71de8c27e2", "internal", "Duration * small constant: dur is a measured round trip")
+R("fad29e8795", "internal", "Duration * small constant: dur is a measured round trip below the timeout (<= MAX_DNS_TIMEOUT)")
+R("df297fed5a", "internal", "Duration * small constant: the shared timeout is clamped to [MIN_DNS_TIMEOUT, MAX_DNS_TIMEOUT] on every store")
+R("d05c578e12", "internal", "sum of the two bounded products above")
+R("5a2be2af81", "internal", "Duration * small constant: dur is a measured round trip")
 R("c72bdfceac", "internal", "timeout/2 + jitter < timeout; the retry loop ends after a fixed number of rounds so the timeout stays far below Duration::MAX")
 R("5b5e45b5c2", "internal", "timeout += at most 1.5 * timeout for a fixed number of retry rounds")
 
@@ -76,17 +76,17 @@ R("5b5e45b5c2", "internal", "timeout += at most 1.5 * timeout for a fixed number
 R("c3fdd12a00", "internal", "address_cache mutex: the critical sections only touch a HashSet and cannot panic, so the lock is never poisoned", count=3)
 R("469778b6a2", "internal", "the cache Option was filled a few lines above under the same call")
 R("1b171b2551", "internal", "oneshot send: the requester awaits the receiver with no cancellation point in between")
-R("2e863439bd", "internal", "oneshot send: the requester awaits the receiver with no cancellation point in between")
-R("e8f7b2b456", "internal", "oneshot send: the requester awaits the receiver with no cancellation point in between")
+R("3f26c090d5", "internal", "oneshot send: the requester awaits the receiver with no cancellation point in between")
+R("4c63a904dd", "internal", "oneshot send: the requester awaits the receiver with no cancellation point in between")
 R("48fba22fcf", "internal", "send_tcp_query is called only after run() has (re)opened self.tcp on the same loop iteration")
 R("33b83cdd98", "internal", "read_reply is polled only while self.tcp is Some (the select arm is guarded by it)")
 R("b9718c2c5b", "internal", "futures::select! without a complete branch: the mpsc receiver and the timers never all complete")
 R("4ba84a4f1f", "internal", "futures::select! without a complete branch: the sleep arm is always pending or ready")
-R("d6c509b83f", "internal", "recv_in_query's Err is matched before the unwrap on the Ok arm")
-R("8f0e816ca3", "internal", "recv_in_query's Err is matched before the unwrap on the Ok arm")
-R("7211a583b9", "internal", "the set of service futures is non-empty: at least one listener was pushed or new() failed earlier")
-R("e8c4fd0656", "internal", "JoinError only if a listener task panicked, which is what this property excludes")
-for h in ("627e998b2a", "6f515e6407", "7a08c882c5", "7898263e58"):
+R("70a2ffa08a", "internal", "recv_in_query's Err is matched before the unwrap on the Ok arm")
+R("36922c6f41", "internal", "recv_in_query's Err is matched before the unwrap on the Ok arm")
+R("4d80141621", "internal", "the set of service futures is non-empty: at least one listener was pushed or new() failed earlier")
+R("a73b4599b9", "internal", "JoinError only if a listener task panicked, which is what this property excludes")
+for h in ("ae74cf4d8d", "6f515e6407", "7a08c882c5", "7898263e58"):
     R(h, "internal", "fmt::Write for String never returns an error")
 
 # ------------------------------------------------------------------ decoder / encoder agreements
@@ -113,31 +113,28 @@ R("dedea7bf5f", "unreach", "a callee that found no node cannot have been given a
 R("555fb018c7", "internal", "write position + base offset: both bounded by the message size limit", requires=("C04.R3",))
 R("a95c54b1c8", "internal", "write position + base offset: both bounded by the message size limit", requires=("C04.R3",))
 R("b928934e4f", "internal", "a node is a pointer target only when its offset is below 0x4000", requires=("C14.R3",))
-R("e5863a07a6", "internal", "node offsets are >= 12: every name is written after the header", requires=("C14.R4", "C04.R2"))
-R("54ce5f3c46", "internal", "0xc0 + (offset >> 8) with offset < 0x4000", count=2, requires=("C14.R3",))
+R("52d40a7c0c", "internal", "node offsets are >= 12: every name is written after the header", requires=("C14.R4", "C04.R2"))
+R("7532e66d42", "internal", "0xc0 + (offset >> 8) with offset < 0x4000", requires=("C14.R3",))
+R("0f1c7121e2", "internal", "0xc0 + (offset >> 8) with offset < 0x4000", requires=("C14.R3",))
 R("cc0b823c76", "internal", "character-strings come from get_string, whose length is one octet")
 R("6271723e32", "internal", "the client cookie is the first 8 octets returned by get_cookie", requires=("S3",))
 R("f966cff6de", "internal", "the server cookie is the 32-octet HMAC output")
 R("d28506018c", "internal", "the RDATA variant is chosen from the record type by the decoder, so the type asserted for a variant is the type "
   "that selected it", count=3, requires=("C14.R1",))
 R("04aec6340c", "internal", "HMAC accepts keys of any length")
-R("97d103203a", "internal", "HMAC-SHA256 output is 32 octets")
+R("6b0b444066", "internal", "HMAC-SHA256 output is 32 octets")
 R("08eac32c12", "internal", "offset + count: offset <= 0x3fff or <= len(buffer), count <= 65535", count=2)
 R("90644cccd8", "internal", "len - offset in the error message: get_bytes runs only after a successful get_u8, so offset <= len (a pointer "
   "jump past the end fails in get_u8 first)")
 R("3092b59d64", "internal", "name length accumulator: checked against 254 after every addition of at most 64", requires=("C14.R5",))
 R("8a54f9a3cd", "unreach", "the record was selected by rrtype == OPT and the decoder builds RData::Opt for exactly that type", requires=("C14.R1",))
-R("2beddd22c1", "loop", "dns_routes[route] with route from 0..dns_routes.len() under the same read guard")
-R("098c27b463", "loop", "dns_routes[best_route]: an index taken from the same range under the same read guard")
-R("d0f8157fd5", "internal", "best_suffix is set together with best_route")
+R("2e9c712800", "loop", "dns_routes[route] with route from 0..dns_routes.len() under the same read guard")
+R("21878a16be", "loop", "dns_routes[best_route]: an index taken from the same range under the same read guard")
+R("332f8c648f", "internal", "best_suffix is set together with best_route")
 R("061ac92a02", "internal", "value[..p + 1] with p a position inside value (rposition), or value[..0]")
 R("94e434c019", "internal", "p + 1 with p < len(value)")
 R("75eb8593d2", "internal", "every option arm pads what it writes to a multiple of 8 octets")
 R("e81b6d25f8", "internal", "serialise() is only called with the advertisement erbium built itself; the other message kinds are never sent", count=2)
-for h in ("ed8eb25f1a", "8514a972a6"):
-    R(h, "internal", "patching the checksum field of the 20-octet IPv4 header pushed a few lines above", requires=("C12.R4",))
-for h in ("5b9a875567", "ff7e4265a4"):
-    R(h, "internal", "patching the checksum field of the 8-octet UDP header pushed a few lines above", requires=("C12.R4",))
 R("9ba7aae664", "loop", "i + count == len(buffer) is a loop invariant and count > 1", count=2)
 R("531e3caf16", "loop", "i + 1 < len(buffer)")
 R("b8d3abb7db", "loop", "i + count == len(buffer) is a loop invariant and count > 1")
@@ -151,18 +148,18 @@ R("4d6470b732", "internal", "sum of two in-memory lengths")
 C19 = ("C19",)
 R("c4ffd76e63", "internal", "UnixAddr::new of a constant path shorter than sun_path", props=C19)
 R("c341203487", "internal", "st.as_bytes()[1..] in the arm where st.get(0..1) == Some(\"@\"), so the string has at least one octet", props=C19)
-R("db0a0e8950", "internal", "k.as_str().unwrap() inside the arm that matched k.as_str() == Some(\"match-interface\")", props=C19)
-R("89b50d6188", "internal", "x[6..] in the arms guarded by x.starts_with(\"match-\") / x.starts_with(\"apply-\"), both 6 octets long", count=2, props=C19)
-R("1a84cb5460", "internal", "network + i with i below the host mask of the same subnet: the network address has zero host bits", props=C19,
+R("a09ae52d51", "internal", "k.as_str().unwrap() inside the arm that matched k.as_str() == Some(\"match-interface\")", props=C19)
+R("eb5fb1c324", "internal", "x[6..] in the arms guarded by x.starts_with(\"match-\") / x.starts_with(\"apply-\"), both 6 octets long", count=2, props=C19)
+R("79e1895d07", "internal", "network + i with i below the host mask of the same subnet: the network address has zero host bits", props=C19,
   requires=("inv",))
-R("b96eedc989", "internal", "parse_interface returns Ok(Some(_)) for a hash and Err otherwise; it never returns Ok(None)", props=C19)
-R("8c5c9753c8", "internal", "parse_interface returns Ok(Some(_)) for a hash and Err otherwise; it never returns Ok(None)", props=C19)
+R("5f75373222", "internal", "parse_interface returns Ok(Some(_)) for a hash and Err otherwise; it never returns Ok(None)", props=C19)
+R("1f3c30b345", "internal", "parse_interface returns Ok(Some(_)) for a hash and Err otherwise; it never returns Ok(None)", props=C19)
 
 # ================================================================== C19: configuration-dependent sites of the service scope
 R("09b85350de", "internal", "Prefix4::new / Prefix6::new assert the length: the only non-test callers pass prefixlen - 96 of a ::ffff:0:0/96+ prefix "
   "whose length the loader bounded by 128, or the prefix length of an interface address reported by the kernel", count=2, props=C19, requires=("V1",))
 R("b7c00e393d", "internal", "network + offset with offset below the host mask of the same prefix (zero host bits in network())", props=C19, requires=("inv",))
-R("1a5ec36410", "internal", "dest[0] of a forward route: the loader builds a forward route only with a non-empty server list", props=C19, requires=("V3",))
-R("846664c7f6", "env", "RA source link-layer address option: the address comes from the kernel's link table (6 octets for Ethernet)", props=C19)
+R("23d3481b86", "internal", "dest[0] of a forward route: the loader builds a forward route only with a non-empty server list", props=C19, requires=("V3",))
+R("886401a65b", "env", "RA source link-layer address option: the address comes from the kernel's link table (6 octets for Ethernet)", props=C19)
 R("88f12b364c", "internal", "IPv4 total length: the DHCP reply is framed only when it has at most 65507 octets", props=C19, requires=("V4",))
 R("3b271e10e0", "internal", "UDP length: the DHCP reply is framed only when it has at most 65507 octets", props=C19, requires=("V4",))
